@@ -28,8 +28,8 @@ def has_contract(pkg, fn):
         contracted[pkg] = open(p).read() if os.path.exists(p) else ""
     return re.search(r"^//@ func " + re.escape(fn) + r"[(#]", contracted[pkg], re.M) is not None
 done = set()
-if os.path.exists("/verif/mutate/results/partial1.jsonl"):
-    for l in open("/verif/mutate/results/partial1.jsonl"):
+if os.path.exists("/verif/mutate/results/none.jsonl"):
+    for l in open("/verif/mutate/results/none.jsonl"):
         try:
             d = json.loads(l); done.add((d["pkg"], d["func"], d["kind"], d["line"]))
         except Exception:
